@@ -814,6 +814,13 @@ class DAGRunConcurrentManager(DAGRunManagerLike):
 
             if has_errors:
                 logger.debug('The subgraph should be stopped. There is an error in %s', name)
+
+                if dag.is_oneof:
+                    # Inside a OneOf candidate the error is stored as a result and nobody is notified about it:
+                    # the candidate waits for the consumers of the destination, which will never become ready.
+                    await self.__unlock_descendants(node_id)
+                    await self.__unlock_itself(dag.dest)
+
                 return
 
             if not is_rec_result and not has_errors:
